@@ -1098,7 +1098,7 @@ class SOForeignKey(SOKeyCol):
         fidName = self.dbName
         # I assume that foreign key name is identical
         # to the id of the reference table
-        sql = ' '.join([fidName, self._maxdbType()])
+        sql = ' '.join([fidName, self._maxdbType()] + self._extraSQL())
         tName = other.sqlmeta.table
         idName = self.refColumn or other.sqlmeta.idName
         sql += ',\nFOREIGN KEY (%s) REFERENCES %s(%s)' % (fidName, tName,
